@@ -270,7 +270,9 @@ impl common::Engine for ConvSim {
                     }) => {
                         trace.ev(&format!("add {h} oversized"));
                         stats.probe("oversized_block_error_path");
-                        if !sc.blocks.oversized.contains(&h) || sequencer_height.value() != h {
+                        if !blocks::oversized_effective(&sc.blocks, &sc.filter, h)
+                            || sequencer_height.value() != h
+                        {
                             viol.push(
                                 "C12",
                                 "oversized-block-path",
@@ -427,7 +429,12 @@ impl common::Engine for ConvSim {
         if let Some(h) = terminal {
             trace.abs("terminal-oversized");
             let _ = h;
-        } else if let Some(h) = sc.blocks.oversized.iter().find(|h| handed.contains(h)) {
+        } else if let Some(h) = sc
+            .blocks
+            .oversized
+            .iter()
+            .find(|h| handed.contains(h) && blocks::oversized_effective(&sc.blocks, &sc.filter, **h))
+        {
             viol.push(
                 "C12",
                 "oversized-block-path",
